@@ -13,6 +13,7 @@ package main
 // a given ops file instead of generating.
 
 import (
+	"bytes"
 	"bufio"
 	"crypto/sha256"
 	"encoding/binary"
@@ -196,6 +197,7 @@ func runDigest(args []string) {
 	opsPath := fs.String("ops", "", "")
 	replay := fs.String("replay", "", "digest the histories of this ops file instead of generating")
 	nz := fs.Int("noise", 0, "number of background goroutines perturbing the scheduler and the collector")
+	order := fs.String("order", "", "reverse: execute the histories last to first (the output stays in ascending order)")
 	fs.Parse(args)
 
 	var stop int32
@@ -214,7 +216,7 @@ func runDigest(args []string) {
 	if *replay != "" {
 		d.replayFile(*replay)
 	} else {
-		d.generate(*seed, *n, *blocks)
+		d.generate(*seed, *n, *blocks, *order == "reverse")
 	}
 	atomic.StoreInt32(&stop, 1)
 	d.out.Flush()
@@ -227,9 +229,43 @@ func runDigest(args []string) {
 }
 
 // generate follows runGenerated of main.go call by call.
-func (d *digester) generate(seed int64, n, blocks int) {
+func (d *digester) generate(seed int64, n, blocks int, reverse bool) {
 	stats := map[string]int{}
-	for h := 0; h < n; h++ {
+	// every history writes into its own buffers; they are emitted in ascending order whatever the execution order was
+	realOut, realOps := d.out, d.ops
+	outBufs, opsBufs := make([]*bytes.Buffer, n), make([]*bytes.Buffer, n)
+	defer func() {
+		d.out.Flush()
+		if d.ops != nil {
+			d.ops.Flush()
+		}
+		d.out, d.ops = realOut, realOps
+		for h := 0; h < n; h++ {
+			if outBufs[h] != nil {
+				realOut.Write(outBufs[h].Bytes())
+			}
+			if realOps != nil && opsBufs[h] != nil {
+				realOps.Write(opsBufs[h].Bytes())
+			}
+		}
+	}()
+	for i := 0; i < n; i++ {
+		h := i
+		if reverse {
+			h = n - 1 - i
+		}
+		if i > 0 {
+			d.out.Flush()
+			if d.ops != nil {
+				d.ops.Flush()
+			}
+		}
+		outBufs[h] = &bytes.Buffer{}
+		d.out = bufio.NewWriterSize(outBufs[h], 1<<16)
+		if realOps != nil {
+			opsBufs[h] = &bytes.Buffer{}
+			d.ops = bufio.NewWriterSize(opsBufs[h], 1<<16)
+		}
 		g := &Gen{r: rand.New(rand.NewSource(seed*1000003 + int64(h))), stats: stats}
 		g.mkActors()
 		e := NewEnv()
